@@ -29,9 +29,11 @@ META = dict(
           "cover the ranking. The model is tied to the code on every run by vm_compute on observed results and by "
           "regenerated constants (store switch threshold, sentinel sort keys)."),
     design_ref="DESIGN.md Part 2 C09",
-    note=("Trusted: Coq kernel, goextract, harness. Known findings: present sort keys at/below the low sentinel (empty "
-          "keyword) or at/above the high sentinel are mis-placed relative to missing values."),
-    technique="Coq proof (insertion-sort specification, heap invariant, permutation uniqueness) + vm_compute correspondence",
+    note=("Trusted: Coq kernel, goextract, harness. Known finding C09-sentinel-collision: present sort keys at/below the low "
+          "sentinel (empty keyword) or at/above the high sentinel are mis-placed relative to missing values "
+          "(missing_placement_outside_interval_refuted is its Coq witness). Repaired in /repo: SortOrder.Copy was shallow, "
+          "Before() reversed the caller's sort order (commit 390d4c0)."),
+    technique="Coq proof (insertion-sort specification, container/heap invariant, uniqueness of sorted permutations, chain induction) + vm_compute correspondence",
 )
 
 ENGINE_TEXT = {"topn": "collector driven directly + TopNSearch vs AllMatches end to end; cases evaluated by Search/TopNCorr.v"}
